@@ -90,6 +90,9 @@ class DirContains(Matcher):
             return mismatch
         return self.matcher.match(sorted(os.listdir(path)))
 
+    def __str__(self):
+        return f"DirContains(matcher={self.matcher})"
+
 
 class FileContains(Matcher):
     """Matches if the given file has the specified contents."""
@@ -130,7 +133,7 @@ class FileContains(Matcher):
             f.close()
 
     def __str__(self):
-        return "File at path exists and contains %s" % self.contents
+        return f"FileContains(matcher={self.matcher})"
 
 
 class HasPermissions(Matcher):
@@ -152,6 +155,9 @@ class HasPermissions(Matcher):
         permissions = oct(os.stat(filename).st_mode)[-4:]
         return Equals(self.octal_permissions).match(permissions)
 
+    def __str__(self):
+        return f"HasPermissions({self.octal_permissions!r})"
+
 
 class SamePath(Matcher):
     """Matches if two paths are the same.
@@ -169,6 +175,9 @@ class SamePath(Matcher):
             return os.path.abspath(os.path.realpath(x))
 
         return Equals(f(self.path)).match(f(other_path))
+
+    def __str__(self):
+        return f"SamePath({self.path!r})"
 
 
 class TarballContains(Matcher):
@@ -194,3 +203,6 @@ class TarballContains(Matcher):
                 tarball.close()
         finally:
             f.close()
+
+    def __str__(self):
+        return f"TarballContains({self.paths!r})"
